@@ -12,7 +12,7 @@ RULE = ("well-typed programs built by construction (type-directed chunks over st
         "IF_CONS with unified branches, counted LOOP/LOOP_LEFT, ITER/MAP over list/set/map, LAMBDA/EXEC/APPLY, PAIR n/"
         "UNPAIR n/GET n/UPDATE n, option/or, sets/maps, CONCAT/SLICE/SIZE, PACK/UNPACK, arithmetic, COMPARE, hashes, "
         "environment instructions, tickets, LAMBDA_REC, CAST/RENAME, FAILWITH; <=8 chunks quick / <=20 thorough, nesting <=2/3; plus a "
-        "focused tier of 1-3 chunk programs whose first chunk kind is drawn uniformly from all 25 kinds; every hash instruction on "
+        "focused tier of 1-3 chunk programs whose first chunk kind is drawn uniformly from all 27 kinds; every hash instruction on "
         "every message length 0..300 (thorough ..1200) exhaustively; every arithmetic instruction and operand-type combination on a small "
         "cross product of boundary operands; a session tier runs programs as REPL text through "
         "Interpreter.execute right after 1-2 cells that failed inside DIP / ITER / IF / lambda bodies) x 0..3 input "
